@@ -1,0 +1,183 @@
+//! Verification hooks (cargo feature `verif-hooks`). Everything in this module
+//! and every `#[cfg(feature = "verif-hooks")]` item elsewhere in the crate is
+//! read-only instrumentation used by an external checker; nothing here is
+//! compiled into normal builds.
+
+use std::{cell::Cell, ops::Range};
+
+use crate::{random::Rng, string_manager::StringManager, tokenizer::Tokenizer, Token};
+
+/// A stored value: strings verbatim, numbers by bit pattern (so that NaN and
+/// negative zero are distinguished and the type is `Eq + Hash`).
+#[derive(Debug, Clone, PartialEq, Eq, Hash, PartialOrd, Ord)]
+pub enum VerifValue {
+    Str(String),
+    Num(u64),
+}
+
+#[derive(Debug, Clone, PartialEq, Eq, Hash)]
+pub struct VerifFrame {
+    pub return_line: Option<u64>,
+    pub return_token_index: usize,
+    /// Sorted by name.
+    pub bindings: Vec<(String, VerifValue)>,
+}
+
+#[derive(Debug, Clone, PartialEq, Eq, Hash)]
+pub struct VerifLoop {
+    pub line: Option<u64>,
+    pub token_index: usize,
+    pub symbol: String,
+    pub to_bits: u64,
+    pub step_bits: u64,
+}
+
+#[derive(Debug, Clone, PartialEq, Eq, Hash)]
+pub struct VerifArray {
+    pub name: String,
+    /// Whether the backing storage is the string variant.
+    pub string_storage: bool,
+    pub dimensions: Vec<usize>,
+    pub cell_count: usize,
+    /// Cells that differ from the storage's default value: (linear index, value).
+    pub non_default_cells: Vec<(usize, VerifValue)>,
+}
+
+#[derive(Debug, Clone, PartialEq, Eq, Hash)]
+pub struct VerifDataCursor {
+    pub chunk_index: usize,
+    pub chunk_item_index: usize,
+    /// (line, token index, number of items) for every chunk, in order.
+    pub chunks: Vec<(Option<u64>, usize, usize)>,
+}
+
+#[derive(Debug, Clone, PartialEq, Eq, Hash)]
+pub struct VerifFunction {
+    pub name: String,
+    pub arguments: Vec<String>,
+    pub line: u64,
+    pub token_index: usize,
+}
+
+/// Complete, canonical (sorted) rendering of everything in an interpreter that
+/// can influence a later observation, except the string interning cache.
+#[derive(Debug, Clone, PartialEq, Eq, Hash)]
+pub struct VerifState {
+    pub state: String,
+    pub pending_input: Option<String>,
+    pub untaken_output: usize,
+    /// Stored lines as (number, token debug renderings), in map-key order.
+    pub lines: Vec<(u64, Vec<String>)>,
+    /// Key set of the sorted line-number index.
+    pub sorted_index_keys: Vec<u64>,
+    pub immediate_line: Vec<String>,
+    pub location_line: Option<u64>,
+    pub location_token_index: usize,
+    pub breakpoint: Option<(u64, usize)>,
+    pub stack: Vec<VerifFrame>,
+    pub loops: Vec<VerifLoop>,
+    pub data_cursor: Option<VerifDataCursor>,
+    pub functions: Vec<VerifFunction>,
+    pub rng_state: u64,
+    pub variables: Vec<(String, VerifValue)>,
+    pub arrays: Vec<VerifArray>,
+    pub enable_warnings: bool,
+    pub enable_tracing: bool,
+}
+
+#[derive(Debug, Clone, Copy, Default, PartialEq, Eq)]
+pub struct VerifCounters {
+    /// Entries into `StatementEvaluator::evaluate_statement`.
+    pub statements: u64,
+    /// Entries into the IF statement evaluator.
+    pub ifs: u64,
+    /// Reads of the token cursor (`Program::peek_next_token`).
+    pub token_reads: u64,
+}
+
+thread_local! {
+    static STATEMENTS: Cell<u64> = Cell::new(0);
+    static IFS: Cell<u64> = Cell::new(0);
+    static TOKEN_READS: Cell<u64> = Cell::new(0);
+}
+
+pub(crate) fn count_statement() {
+    STATEMENTS.with(|c| c.set(c.get() + 1));
+}
+
+pub(crate) fn count_if() {
+    IFS.with(|c| c.set(c.get() + 1));
+}
+
+pub(crate) fn count_token_read() {
+    TOKEN_READS.with(|c| c.set(c.get() + 1));
+}
+
+/// Returns the counters accumulated on this thread since the last call and
+/// resets them.
+pub fn take_counters() -> VerifCounters {
+    VerifCounters {
+        statements: STATEMENTS.with(|c| c.replace(0)),
+        ifs: IFS.with(|c| c.replace(0)),
+        token_reads: TOKEN_READS.with(|c| c.replace(0)),
+    }
+}
+
+#[derive(Debug, Clone, PartialEq)]
+pub struct VerifTokenizeError {
+    /// Display form of the tokenization error, e.g. `ILLEGAL CHARACTER`.
+    pub kind: String,
+    /// `TokenizationError::string_range(line.len())`.
+    pub range: Range<usize>,
+    /// Tokens the iterator yielded before the error.
+    pub tokens_before: Vec<(Token, Range<usize>)>,
+}
+
+/// Tokenizes a whole line (no line-number handling) with a private string manager.
+pub fn tokenize(line: &str) -> Result<Vec<(Token, Range<usize>)>, VerifTokenizeError> {
+    tokenize_skipping(line, 0)
+}
+
+/// Tokenizes `line` starting at byte offset `skip`, exactly as the line-entry path does
+/// after it has parsed a line number.
+pub fn tokenize_skipping(
+    line: &str,
+    skip: usize,
+) -> Result<Vec<(Token, Range<usize>)>, VerifTokenizeError> {
+    let mut manager = StringManager::default();
+    let tokenizer = Tokenizer::new(line, &mut manager).skip_bytes(skip);
+    let mut tokens = vec![];
+    for item in tokenizer {
+        match item {
+            Ok(pair) => tokens.push(pair),
+            Err(err) => {
+                return Err(VerifTokenizeError {
+                    kind: err.to_string(),
+                    range: err.string_range(line.len()),
+                    tokens_before: tokens,
+                })
+            }
+        }
+    }
+    Ok(tokens)
+}
+
+/// `line_number_parser::parse_line_number`.
+pub fn parse_line_number(line: &str) -> Option<(u64, usize)> {
+    crate::line_number_parser::parse_line_number(line)
+}
+
+/// Seeds a generator with `state`, performs one step and returns the new
+/// internal state together with the value `RND(1)` would have returned.
+pub fn rng_step(state: u64) -> (u64, f64) {
+    let mut rng = Rng::new(state);
+    let value = rng.random();
+    (rng.verif_state(), value)
+}
+
+/// Seeds a generator with `state` and returns its internal state and what `RND(0)` returns
+/// without stepping.
+pub fn rng_latest(state: u64) -> (u64, f64) {
+    let rng = Rng::new(state);
+    (rng.verif_state(), rng.latest_random())
+}
